@@ -5,6 +5,7 @@ import (
 	"crypto/sha256"
 	"fmt"
 	"io"
+	"math"
 	"sort"
 	"strings"
 
@@ -21,9 +22,13 @@ type JRow struct {
 	// D: dictionary indexes alternate for 8 rows, then 7 equal ones and a
 	// different one, then alternate again (bit-packed / run boundary of the
 	// hybrid RLE encoding, where kernels of different builds could cut runs
-	// differently)
+	// differently), then four equal ones followed by four other equal ones
 	D string `parquet:",dict"`
-	S string `parquet:",dict"`
+	// N: a dictionary of doubles; in job rows the first entry is a NaN, in the
+	// rows of prior histories there is none (state kept about the dictionary
+	// scanned so far must not outlive the dictionary)
+	N float64 `parquet:",dict"`
+	S string  `parquet:",dict"`
 	O *string
 	L []int32
 	F float64
@@ -37,11 +42,18 @@ func c17Rows(seed, n int) []JRow {
 		k := seed*1000 + i
 		r := JRow{ID: int64(k), S: fmt.Sprintf("s-%d-%d", seed, i%5), F: float64(k) / 8, B: i%3 == 0}
 		r.D = []string{"d0", "d1"}[i%2]
-		if (i/8)%3 == 1 {
+		switch (i / 8) % 4 {
+		case 1:
 			r.D = "d0"
 			if i%8 == 7 {
 				r.D = "d1"
 			}
+		case 3:
+			r.D = []string{"d0", "d1"}[(i%8)/4]
+		}
+		r.N = float64(k%1000) + 0.25
+		if seed == 1 && (i == 0 || i == 17) {
+			r.N = math.NaN()
 		}
 		if i%2 == 0 {
 			r.O = ptrTo(fmt.Sprintf("o%d", k))
@@ -148,7 +160,7 @@ func c17Run(x *engine.X) {
 		x.Nontrivial(x.Describe())
 	}
 	shape := fmt.Sprintf("job=%s;container=%s", job.name, container)
-	J := c17Rows(1, 26)
+	J := c17Rows(1, 34)
 	priorRows := func(kind string) []JRow {
 		switch kind {
 		case "complete(small)", "aborted-after-small-write":
